@@ -158,3 +158,33 @@ c("t_fancy", params={"a": "arr2[real]", "idx": "arr1[int]"}, returns="arr2[real]
            "forall(range(0, len(idx)), lambda i: forall(range(0, a.shape[1]), lambda q: result[i, q] == a[idx[i], q]))"])
 c("t_minmax", params={"a": "arr1[real]", "b": "arr1[real]"}, returns="arr1[real]", requires=["len(a) == len(b)"],
   ensures=["forall(range(0, len(a)), lambda i: result[i] == abs(a[i] - b[i]))"])
+
+# ---- models added later
+c("t_rint", params={"x": "real"}, returns="real", ensures=["abs(result - x) <= 0.5", "result == np.floor(result)"])
+c("t_unique_index", params=A1, returns="arr1[int]",
+  ensures=["forall(range(0, len(result)), lambda k: 0 <= result[k] and result[k] < len(a))",
+           # the index of the FIRST occurrence
+           "forall(range(0, len(result)), lambda k: forall(range(0, result[k]), lambda i: a[i] != a[result[k]]))"])
+c("t_array3", params={"a": "arr2[real]", "b": "arr2[real]"}, returns="arr3[real]",
+  requires=["a.shape[0] == b.shape[0] and a.shape[1] == b.shape[1]"],
+  ensures=["result.shape[0] == 2 and result.shape[1] == a.shape[0] and result.shape[2] == a.shape[1]",
+           "forall(range(0, a.shape[0]), lambda r: forall(range(0, a.shape[1]), lambda q: result[0, r, q] == a[r, q] and "
+           "result[1, r, q] == b[r, q]))"])
+c("t_reshape_split", params={"a": "arr2[real]", "p": "int", "e": "int"}, returns="arr3[real]",
+  requires=["p >= 0 and e >= 1 and a.shape[0] == p * e"], may_raise=["ValueError"],
+  ensures=["result.shape[0] == p and result.shape[1] == e and result.shape[2] == a.shape[1]",
+           "forall(range(0, p), lambda i: forall(range(0, e), lambda j: forall(range(0, a.shape[1]), lambda q: "
+           "result[i, j, q] == a[i * e + j, q])))"])
+c("f_reshape_split", params={"a": "arr2[real]", "p": "int", "e": "int"}, returns="arr3[real]",
+  requires=["p >= 1 and e >= 2 and a.shape[0] == p * e and a.shape[1] >= 1"], may_raise=["ValueError"],
+  ensures=["forall(range(0, p), lambda i: forall(range(0, e), lambda j: forall(range(0, a.shape[1]), lambda q: "
+           "result[i, j, q] == a[j * p + i, q])))"])
+c("t_repeat_rows", params={"a": "arr2[real]", "k": "int"}, returns="arr2[real]", requires=["k >= 1"],
+  ensures=["result.shape[0] == a.shape[0] * k",
+           "forall(range(0, a.shape[0]), lambda i: forall(range(0, k), lambda j: forall(range(0, a.shape[1]), lambda q: "
+           "result[i * k + j, q] == a[i, q])))"])
+c("t_store_cast", params={"n": "int", "x": "real"}, returns="arr1[int]", requires=["n >= 1"],
+  ensures=["abs(result[0]) <= abs(x) and abs(x) < abs(result[0]) + 1 and result[0] * x >= 0"])
+c("f_store_cast", params={"n": "int", "x": "real"}, returns="arr1[int]", requires=["n >= 1"],
+  ensures=["result[0] == x"])
+c("t_dict_get", params={"k": "str"}, returns="int", ensures=["result >= 0 and result <= 2"])
